@@ -426,6 +426,9 @@ def runAnnotIO (o : Opts) (recs : List (Rec × Option Rec)) (T : Tab) : String :
 structure DOpts where
   d : Distribute.DistOpts := {}
   hasPat : Bool := false
+  /-- `rawpat=`: the pattern as it is typed; refused = `CLIFileNamePattern` stops the program -/
+  hasRaw : Bool := false
+  refused : Bool := false
   bs : Nat := 3
   lay : Option (List Nat) := none
   perm : Option (List Nat) := none
@@ -434,6 +437,13 @@ structure DOpts where
   old : List (String × List String) := []
 
 def patOK (s : String) : Bool := s.all fun c => c.isAlphanum || c = '_' || c = '.'
+
+/-- a pattern as it is typed (`rawpat=`): `[A-Za-z0-9_][A-Za-z0-9_.%\[\]+-]*` -/
+def rawPatOK (s : String) : Bool :=
+  match s.toList with
+  | c :: t => (c.isAlphanum || c = '_') &&
+    t.all fun c => c.isAlphanum || c = '_' || c = '.' || c = '%' || c = '[' || c = ']' || c = '+' || c = '-'
+  | [] => false
 
 /-- `old<digits>` -/
 def oldIdOK (s : String) : Bool :=
@@ -486,6 +496,12 @@ def parseDOpt (o : DOpts) (w : String) : Option DOpts :=
   | ["w", x] => (canonInt x).bind fun n => if 1 ≤ n && n ≤ 8 then some o else none
   | ["lay", x] => (natList x).map fun l => { o with lay := some l }
   | ["perm", x] => (natList x).map fun l => { o with perm := some l }
+  | ["rawpat", x] => do
+    let raw ← unhexS x
+    if !rawPatOK raw then none
+    match o.d.withPattern raw with
+    | some d => pure { o with hasRaw := true, d := d }
+    | none => pure { o with hasRaw := true, refused := true }
   | ["pat", x] =>
     match x.splitOn ":" with
     | [a, b] => do
@@ -568,7 +584,7 @@ def runArgv (ws : List String) : String :=
   | cmd :: form :: toks =>
     if !(form = "0" || form = "1" || form = "2") then "bad-op"
     else if cmd = "dist" then
-      if toks.any (fun w => w = "long" || w.startsWith "lay=" || w.startsWith "perm=" || w.startsWith "old=") then "bad-op" else
+      if toks.any (fun w => w = "long" || w.startsWith "lay=" || w.startsWith "perm=" || w.startsWith "old=" || w.startsWith "rawpat=") then "bad-op" else
       match toks.foldlM parseDOpt {} with
       | none => "bad-op"
       | some o =>
@@ -669,8 +685,9 @@ def runDistIO (ws : List String) (recs : List (Rec × Option Rec)) : String :=
   | none => "bad-op"
   | some o =>
     let d := o.d
-    if !o.hasPat || (d.classifierTag = "" && d.batchCount = 0 && d.hashSize = 0) ||
+    if o.hasPat == o.hasRaw || (d.classifierTag = "" && d.batchCount = 0 && d.hashSize = 0) ||
         (d.directoryTag ≠ "" && d.classifierTag = "") then "bad-op"
+    else if o.refused && (d.append || !o.old.isEmpty) then "bad-op"
     else if !layPermOK o.bs o.lay o.perm recs.length then "bad-op"
     else if recs.any (fun rm => rm.2.isSome || !idOK rm.1.id || !seqOK rm.1.seq || rm.1.id.startsWith "old") then "bad-op"
     else if !(recs.map (·.1.id)).Nodup then "bad-op"
@@ -683,6 +700,7 @@ def runDistIO (ws : List String) (recs : List (Rec × Option Rec)) : String :=
         if (rs.zipIdx).any (fun ri =>
             let kd := Distribute.classOf c ri.2 ri.1
             !keyOK kd.1 || (kd.2 ≠ "" && !dirOK kd.2)) then "bad-op"
+        else if o.refused then "panic"
         else
           let files := (Distribute.distributeFilesOn d c o.old rs).foldr insFile []
           if files.isEmpty then "-"
